@@ -18,7 +18,7 @@ theorem countT_replicate_false (n : Nat) : countT (List.replicate n false) = 0 :
   simp [countT]
 
 /-- static parameters the stream FIFO is built with: at least one slot; the fall-through variant wraps a latency-1 FIFO
-    (streamFifo.h:147: `fifoLatency == 0 ? FifoLatency(1) : fifoLatency`) -/
+    (streamFifo.h:146: `fifoLatency == 0 ? FifoLatency(1) : fifoLatency`) -/
 def FifoOk (depth lat : Nat) (ft : Bool) : Prop := 0 < depth ∧ (ft = true → lat ≤ 1)
 
 structure FifoInv {α : Type} (depth lat : Nat) (s : FifoS α) : Prop where
